@@ -12,3 +12,19 @@ package syncmap
 //@ func (*Service).PostLock
 //@ requires s != nil
 //@ mustcall (*sync.Mutex).Unlock on fieldaddr(s, "mapLock") once
+
+// C04/C15 also rest on "one mutex per key": Lock(key) takes, and Unlock(key) releases, the mutex stored in the table
+// under this very key, and two keys never share a mutex (every mutex put into the table is freshly allocated).
+//@ spec lockTableWf() bool = forall a any, b any :: a != b && smdom[a] && smdom[b] ==> smval[a] != smval[b]
+//@ spec mutexes() bool = forall a any :: smdom[a] ==> hastype(smval[a], "*sync.Mutex") && unbox(smval[a], "*sync.Mutex") != nil && !fresh(unbox(smval[a], "*sync.Mutex"))
+//@ func (*Service).Lock
+//@ requires s != nil && lockTableWf() && mutexes()
+//@ modifies smdom, smval
+//@ mustcall (*sync.Mutex).Lock on (if smdom[box(key)] then unbox(smval[box(key)], "*sync.Mutex") else nil) once
+//@ ensures [own] smdom[box(key)]
+//@ ensures [keep] forall k any :: old(smdom[k]) ==> smdom[k] && smval[k] == old(smval[k])
+//@ ensures [wf] lockTableWf()
+//@ func (*Service).Unlock
+//@ requires s != nil && lockTableWf() && mutexes()
+//@ requires [known] smdom[box(key)]
+//@ mustcall (*sync.Mutex).Unlock on (if smdom[box(key)] then unbox(smval[box(key)], "*sync.Mutex") else nil) once
